@@ -152,6 +152,11 @@ def check_C01(tier, seed, replay):
                              require=("Lit", "Range", "Eoi", "AnyChar", "CallChar", "SeqFail", "AltFail", "OptFail",
                                       "CloIter", "CloStop", "NegOk", "NegFail", "PosOk", "PosFail", "RuleEnter"))
     cases = [c for r in runs for c in r.cases]
+    for r in runs:
+        for gid, (verdict, msg) in sorted(r.rejected.items()):
+            res.add(Violation("C01", "Generates", "the generator %s on a well-formed grammar (%s: %s): %s" % (
+                "panics" if msg.startswith("PANIC") else "answers with an error", r.fam, r.by_g[gid].meta.get("shape"), msg[:300]), None,
+                {"name": r.by_g[gid].meta.get("shape"), "site": "generator:" + str(r.by_g[gid].meta.get("shape"))}))
     drift = 0
     nontriv = 0
     for c in cases:
@@ -185,6 +190,14 @@ def generic(prop, fams, tier, seed, replay, preds, rule, nontrivial, require=(),
     res = Result()
     runs, cov = machine_runs(prop, fams, tier, seed, replay, indented=indented, require=require)
     cases = [c for r in runs for c in r.cases]
+    for r in runs:
+        for gid, (verdict, msg) in sorted(r.rejected.items()):
+            g = r.by_g[gid]
+            import peg as _peg
+            res.add(Violation(prop, "Generates", "the generator %s on a grammar of this property's quantifier (%s: %s), so there is no "
+                              "parser to judge: %s" % ("panics" if msg.startswith("PANIC") else "answers with an error", r.fam,
+                                                       g.meta.get("shape"), msg[:300]), None,
+                              {"name": g.meta.get("shape"), "site": "generator:" + str(g.meta.get("shape")), "grammar": _peg.grammar_text(g)}))
     drift = nt = 0
     for c in cases:
         v = None
@@ -491,10 +504,15 @@ def p_error(prop, c):
             return Violation(prop, "RealFailure", "the reported detail %s names no attempt that failed at %d" % (kind, errp), c)
     has_memo = any(r.kind == "rule" and (r.memoize or r.leftrec) for r in c.g.rules)
     if not has_memo and e["ok"] is False:
-        must = {x["p"] for x in e["att"] if not x["la"]} & offs
+        # attempts that count: made outside lookaheads, or handed out by a positive lookahead that failed
+        must = {x["p"] for x in e["att"] if x["la"] == 0} & offs
+        spec_offs = {x["p"] for x in e["att"]}
         if must and errp < max(must):
-            return Violation(prop, "FurthestFail", "reported position %d but an attempt outside any lookahead failed at %d" % (
+            return Violation(prop, "FurthestFail", "reported position %d but an attempt that counts failed at %d" % (
                 errp, max(must)), c)
+        if must and errp > max(must) and offs <= spec_offs:
+            return Violation(prop, "FurthestFail", "reported position %d is further than every attempt that counts (furthest: %d); it comes "
+                             "from inside a lookahead that did not make the parse fail" % (errp, max(must)), c)
         if offs and errp > max(offs):
             return Violation(prop, "FurthestFail", "reported position %d is beyond every failed attempt" % errp, c)
     return None
